@@ -375,7 +375,8 @@ func main() {
 			}
 			ws = append(ws, fmt.Sprintf("%d=%s", h, strings.Join(cs, ",")))
 		}
-		e.emit("plan "+strings.Join(ws, " "), tail, "ok")
+		// the model answers whether the recorded order keeps the ordering facts of theorem K2 at every crash point
+		e.emit("plan "+strings.Join(ws, " "), tail, "ok ordered=1")
 		r.Count("plan-" + kv["plan"])
 		return true
 	}
@@ -446,17 +447,20 @@ func main() {
 			}
 		}
 		if !r.Thorough() {
-			// quick: a third of the budget outside the commit proper
+			// quick: EVERY crash point of the commit proper of one height (a reordering inside a commit
+			// is then met at each of its crash points), the rest of the budget outside it
+			hs := int64(R.Range(2, int(e.upto)))
+			if R.Chance(20) {
+				hs = 1
+			}
 			var c2 []pt
-			nCore := budget * 2 / 3
-			for _, p := range chosen {
-				if core(p) && nCore > 0 {
+			for _, p := range pts {
+				if core(p) && p.h == hs {
 					c2 = append(c2, p)
-					nCore--
 				}
 			}
 			for _, p := range chosen {
-				if !core(p) && len(c2) < budget {
+				if !core(p) && len(c2) < budget+4 {
 					c2 = append(c2, p)
 				}
 			}
